@@ -56,7 +56,7 @@ impl Model {
 fn main() {
     let args = Args::parse();
     let mut m = Monitor::new("C21", "random operation sequences (1-60 ops) over 4 segments x 6 max-cuts in three modes: dedup (push/push_covered/pop/pop_covered/peek/cover_up_to/drain_above/drain_all/all_covered/is_empty/clear), duplicate (push_duplicate/pop/pop_duplicates/peek) and mixed (no-panic + pop-is-max only); a 40-line model of the documented rules is compared after every operation through the public observers. non-trivial = sequence with >=1 covered/uncovered transition or duplicate pop; distinct by op-sequence hash").min(1000);
-    let n = args.n(400_000, 6_000_000);
+    let n = args.n(400_000, 30_000_000);
     struct S(Monitor);
     unsafe impl Send for S {}
     let replay = args.replay_case().map(|r| r["case"]["case_seed"].as_u64().unwrap());
